@@ -293,7 +293,6 @@ CaseResult run_drain(Tape &t)
       int want_sink = sc.tag == REPROC_STREAM_OUT ? 0 : ectx.id;
       if (sc.sink != want_sink) fail("wrong-sink", "a chunk of " + std::string(sc.tag == 1 ? "stdout" : "stderr") + " was passed to the other stream's sink");
       if (!piped[sc.tag]) fail("call-for-unpiped-stream", std::string("a sink call for ") + (sc.tag == 1 ? "stdout" : "stderr") + ", which is not piped");
-      if (sc.size > 4096) fail("chunk-too-large", "a chunk of " + std::to_string(sc.size) + " bytes (drain reads 4096 at a time)");
       if (!sc.content_ok) fail("content", std::string("a chunk of ") + (sc.tag == 1 ? "stdout" : "stderr") + " does not continue the child's output where the previous one ended");
       if (after_close[sc.tag]) fail("call-after-closing-call", std::string("a sink call for ") + (sc.tag == 1 ? "stdout" : "stderr") + " after its closing (size 0) call");
       if (sc.size == 0) {
